@@ -63,6 +63,20 @@ def cond_true(D):
     return ('true', D)
 
 
+def counter_guard(c):
+    """`i < X.len()` on a 0-based, step-1 loop counter i is the loop test "X has a next element" (index-driven loops)"""
+    from norm import _is_counter, _len_of
+    if c[0] == 'cmp' and c[1] == 'lt' and _is_counter(c[2]):
+        x = _len_of(c[3])
+        if x is not None:
+            return ('present', ('next', x))
+    if c[0] == 'cmp' and c[1] == 'le' and _is_counter(c[3]):
+        x = _len_of(c[2])
+        if x is not None:
+            return ('absent', ('next', x))
+    return c
+
+
 def adt_variants(crate, ty):
     a = crate.adts.get(ty)
     if a is None:
@@ -160,6 +174,7 @@ def guard_edges(g):
                         c = negate(c)
                     if not iv:
                         c = negate(c)
+                    c = counter_guard(c)
                     gd_ = Guard(ctx, bb, lab, c, t.get('at'), D2)
                     gd_.origin = site_
                     out.append(gd_)
@@ -169,7 +184,7 @@ def guard_edges(g):
                     c = cond_true(D)
                     if not truth:
                         c = negate(c)
-                    out.append(Guard(ctx, bb, lab, c, t.get('at'), D))
+                    out.append(Guard(ctx, bb, lab, counter_guard(c), t.get('at'), D))
                 elif D[0] == 'discr':
                     c = cond_discr(g.crate, D[1], D[2] if len(D) > 2 else '', lab, arm_labels)
                     out.append(Guard(ctx, bb, lab, c, t.get('at'), D))
